@@ -128,7 +128,10 @@ pub fn run(log: &mut Log, tag: &str, alpha: &[u8], sc: &Scheme, how: u64, k: usi
     }
     let mut al = make(alpha, sc, how, k, w, cap);
     for (e, x, y) in calls {
-        let big = x.len() > 200 || y.len() > 200;
+        // "planted" calls: long sequences with a planted copy; logged verbatim, judged by validity,
+        // rescoring and the band-size rule only (the optimum is not recomputed at that size)
+        let planted = tag == "planted";
+        let big = !planted && (x.len() > 200 || y.len() > 200);
         // large inputs (budget-guard cases) are logged by length + fill symbol, not verbatim
         let args = if big {
             // (big inputs are unary: fill symbol + length describe them completely)
@@ -136,7 +139,7 @@ pub fn run(log: &mut Log, tag: &str, alpha: &[u8], sc: &Scheme, how: u64, k: usi
                    "xfill": sym(alpha, x[0]), "yfill": sym(alpha, y[0]),
                    "internal": e.internal(), "nomatches": e.nomatches()})
         } else {
-            json!({"x": syms(alpha, x), "y": syms(alpha, y), "big": 0,
+            json!({"x": syms(alpha, x), "y": syms(alpha, y), "big": if planted { 2 } else { 0 },
                    "internal": e.internal(), "nomatches": e.nomatches()})
         };
         let r = log.call(e.name(), args, || {
@@ -144,12 +147,25 @@ pub fn run(log: &mut Log, tag: &str, alpha: &[u8], sc: &Scheme, how: u64, k: usi
                 Al::Tab(a) => dispatch!(a, e, x, y, k),
                 Al::Par(a) => dispatch!(a, e, x, y, k),
             };
+            // hook: size of the band this call built (the budget clause is about it)
+            let cells = match &al {
+                Al::Tab(a) => a.verif_band_cells(),
+                Al::Par(a) => a.verif_band_cells(),
+            };
+            if planted {
+                let mut j = alignment_json(&a);
+                j["cells"] = json!(cells);
+                return j;
+            }
             if big {
                 // only what the budget clause talks about
                 json!({"score": a.score, "xstart": a.xstart, "xend": a.xend, "ystart": a.ystart, "yend": a.yend,
-                       "xlen": a.xlen, "ylen": a.ylen, "mode": 0, "nops": a.operations.len(), "ops": []})
+                       "xlen": a.xlen, "ylen": a.ylen, "mode": 0, "nops": a.operations.len(), "ops": [],
+                       "cells": cells})
             } else {
-                alignment_json(&a)
+                let mut j = alignment_json(&a);
+                j["cells"] = json!(cells);
+                j
             }
         });
         if x.is_empty() && y.is_empty() { log.oblige("both_empty"); }
@@ -322,6 +338,28 @@ pub fn drive(log: &mut Log) {
         ];
         log.oblige("over_cell_budget");
         run(log, "budget", ac, &sc, 0, 8, 3, (10, 10), &calls);
+    }
+    // (c2) long y with a planted copy of x: the band is a thin stripe, most columns are empty;
+    // matrix = (m+1)(n+1) far beyond the budget although the band is tiny
+    for (m, flank) in [(2000usize, 2500usize), (1500, 4000)] {
+        case += 1;
+        if !log.mine(case) {
+            continue;
+        }
+        let mut rng = Rng::new(seed, 3, case);
+        let x = rng.seq(m, acgt);
+        let mut y = rng.seq(flank, acgt);
+        y.extend_from_slice(&x);
+        y.extend(rng.seq(flank, acgt));
+        let sc = Scheme { table: mm_table(4, 1, -1), simple: Some((1, -1)), go: -5, ge: -1, clip: [MIN_SCORE, MIN_SCORE, 0, 0] };
+        let calls = vec![
+            (Entry::Semiglobal, x.clone(), y.clone()),
+            (Entry::Local, x.clone(), y.clone()),
+            (Entry::Custom, x.clone(), y.clone()),
+            (Entry::SemiglobalPrehash, x.clone(), y.clone()),
+        ];
+        log.oblige("thin_band_in_huge_matrix");
+        run(log, "planted", acgt, &sc, 0, 16, 10, (10, 10), &calls);
     }
     // (d) degenerate inputs: empty x / empty y / both, every entry point
     for k in 1..=2usize {
